@@ -104,6 +104,11 @@ def proof_step(pid, tier):
         res["coqchk"] = c.stdout.strip()[-1500:]
         if c.returncode != 0:
             res["reason"] = "coqchk failed: " + c.stdout[-400:]; return res
+        ax = re.search(r"\* Axioms:\s*(.*?)\n\s*\n", c.stdout + "\n\n", re.S)
+        if ax and "<none>" not in ax.group(1):
+            bad = [n for n in re.findall(r"([\w.]+)", ax.group(1)) if n not in allowed]
+            if bad:
+                res["reason"] = f"coqchk reports axioms outside the allow-list: {bad[:5]}"; return res
     res["ok"] = True
     res["wall_s"] = time.time() - t0
     return res
@@ -193,9 +198,16 @@ def main():
         nviol += 1
         if reported < 3:
             rp = os.path.join(REPLAYS, f"{pid}-{reported}.json")
+            if reported == 0:
+                try:
+                    small = suites.minimise(f)
+                except Exception:
+                    small = None
+                if small:
+                    f = dict(f, case=small, original_case=f.get("case"), minimised=True)
             json.dump(dict(property=pid, kind="failing-input", suite=f["suite"], where=f["where"], tag=f["tag"],
                            message=f["message"], case=f.get("case"), mode=f.get("mode"), seed=seed, tier=tier,
-                           fault_call=f.get("fault_call"),
+                           fault_call=f.get("fault_call"), minimised=f.get("minimised", False), original_case=f.get("original_case"),
                            how_to_replay=f"bin/check {pid} --replay {rp}"), open(rp, "w"), indent=1)
             print(f"VIOLATION property={pid} replay={rp}")
             reported += 1
